@@ -828,6 +828,8 @@ class Exec:
                 if isinstance(n, ast.Name):
                     mod[n.id] = "rebind"
         saved_ord = self.loop_ordinal
+        if seq is not None:
+            st.locals["__seq%d__" % ordinal] = seq       # contract vocabulary loop_seq(ordinal): what the loop iterates over
         # ghost variables (re)bound by hooks anchored at statements inside the loop body
         for g in getattr(self.contract, "ghosts", None) or []:
             if g.get("let"):
